@@ -214,6 +214,30 @@ def c19():
             run_case("apply(v,d,bad-serializer)", dict(f="apply", rule=desc_r, serializer="returns " + bad), lambda: jsonlogic_rs.apply(r, 1, lambda o: bad), bad, bad)
 
 
+def c19_unencodable():
+    """texts that are not Unicode text at all (lone surrogates): malformed input, so ValueError - never a
+    value computed from a silently altered text"""
+    texts = ['"\ud800"', '"a\udfffb"', '{"var":"k\udc00"}', '\ud800', '["\ud83d"]', '{"k\udc00":1,"k\ufffd":2}', '"\ud83d\ude00"[::-1]']
+    texts[-1] = '"' + "\ude00\ud83d" + '"'   # a reversed surrogate pair
+    for i, t in enumerate(texts):
+        if i % nshards != shard:
+            continue
+        d = {"text": ascii(t)}
+        run_case("apply_serialized(unencodable)", dict(d, f="apply_serialized", pos="rule"), lambda: jsonlogic_rs.apply_serialized(t), None, None)
+        run_case("apply_serialized(t,unencodable)", dict(d, f="apply_serialized", pos="data"), lambda: jsonlogic_rs.apply_serialized('{"var":""}', t), None, None)
+        run_case("apply_serialized(t,data=unencodable)", dict(d, f="apply_serialized", pos="data", kw=True), lambda: jsonlogic_rs.apply_serialized('{"var":"k"}', data=t), None, None)
+        run_case("apply_serialized(unencodable,dt,deserializer)", dict(d, f="apply_serialized", pos="rule", deserializer="tagged"), lambda: jsonlogic_rs.apply_serialized(t, "1", tagged), None, None)
+        run_case("apply(v,d,unencodable-serializer)", dict(d, f="apply", serializer="returns it"), lambda: jsonlogic_rs.apply({"var": ""}, 1, lambda o: t), None, None)
+        # the same characters inside Python values: the default serializer escapes them, and a lone-surrogate
+        # escape is not JSON text either; a serializer that keeps them raw yields an unencodable text
+        v = "x\ud800y"
+        for rule, data in (({"cat": [v, 1]}, None), ({"var": "k"}, {"k": v}), ({"var": v}, {v: 1}), (v, None)):
+            rt, dt = json.dumps(rule), json.dumps(data)
+            run_case("apply(surrogate-in-value)", dict(d, f="apply", rule=ascii(rule), data=ascii(data)), lambda: jsonlogic_rs.apply(rule, data), rt, dt)
+            run_case("apply(surrogate-in-value,raw-serializer)", dict(d, f="apply", rule=ascii(rule), data=ascii(data), serializer="ensure_ascii=False"),
+                     lambda: jsonlogic_rs.apply(rule, data, lambda o: json.dumps(o, ensure_ascii=False)), None, None)
+
+
 def c19_long_errors():
     """library errors that quote long non-ASCII content must still be ValueError"""
     units = ["é", "€", "水", "😀", "z"]
@@ -287,6 +311,47 @@ def c19_history():
     for r in twin_rules:
         for d in (1, True, False, 0):
             calls.append(("apply(%r,%r)" % (r, d), (lambda r=r, d=d: jsonlogic_rs.apply(r, d))))
+    # in-place edits: the SAME rule / data objects are used by many calls, each call first assigns every
+    # field it depends on (so its outcome in isolation is its outcome anywhere) - whatever the wrapper
+    # remembers about an object by identity goes stale when the object is edited
+    R, D, N, LR, DL = {"var": "a"}, {"a": 1, "b": 2}, {"if": [{"var": "a"}, ["x"], "no"]}, [1, {"var": "a"}], [1, 2]
+
+    def edit_apply(x, y):
+        R.clear()
+        R["var"] = x
+        D["a"] = y
+        return jsonlogic_rs.apply(R, D)
+
+    def edit_op(opname):
+        R.clear()
+        R[opname] = ["a", "b"] if opname == "cat" else "b"
+        D["a"] = 1
+        return jsonlogic_rs.apply(R, data=D)
+
+    def edit_nested(z):
+        N["if"][1][0] = z
+        D["a"] = 1
+        return jsonlogic_rs.apply(N, D)
+
+    def edit_list_rule(v):
+        LR[0] = v
+        return jsonlogic_rs.apply(LR)
+
+    def edit_list_data(v):
+        DL[0] = v
+        return jsonlogic_rs.apply({"var": 0}, DL)
+
+    for x in ("a", "b"):
+        for y in (1, 10):
+            calls.append(("R.var=%r; D.a=%r; apply(R,D)" % (x, y), (lambda x=x, y=y: edit_apply(x, y))))
+    for o in ("cat", "var"):
+        calls.append(("R={%r:..}; apply(R,data=D)" % o, (lambda o=o: edit_op(o))))
+    for z in ("x", "z"):
+        calls.append(("N.if[1][0]=%r; apply(N,D)" % z, (lambda z=z: edit_nested(z))))
+    for v in (1, 2):
+        calls.append(("LR[0]=%r; apply(LR)" % v, (lambda v=v: edit_list_rule(v))))
+        calls.append(("DL[0]=%r; apply({'var':0},DL)" % v, (lambda v=v: edit_list_data(v))))
+    calls.append(("R.var='a'; D.a=1; apply(R,D,compact)", lambda: (R.clear(), R.__setitem__("var", "a"), D.__setitem__("a", 1), jsonlogic_rs.apply(R, D, compact))[-1]))
     calls.append(("apply({'var':''},1,compact)", lambda: jsonlogic_rs.apply({"var": ""}, 1, compact)))
     calls.append(("apply({'var':''},1.0,None,tagged)", lambda: jsonlogic_rs.apply({"var": ""}, 1.0, None, tagged)))
     calls.append(("apply_serialized('{\"var\":\"\"}','true',tagged)", lambda: jsonlogic_rs.apply_serialized('{"var":""}', "true", tagged)))
@@ -379,6 +444,7 @@ try:
         c19_history()
         c19()
         c19_long_errors()
+        c19_unencodable()
     else:
         c01()
 finally:
